@@ -101,6 +101,54 @@ func truncs(b []byte) string {
 	return s
 }
 
+// narrowType maps a type to the same shape with narrower numeric leaves.
+func narrowType(t reflect.Type) reflect.Type {
+	if t == vh.TimeType {
+		return t
+	}
+	switch t.Kind() {
+	case reflect.Float64:
+		return reflect.TypeOf(float32(0))
+	case reflect.Int, reflect.Int64:
+		return reflect.TypeOf(int16(0))
+	case reflect.Uint, reflect.Uint64:
+		return reflect.TypeOf(uint8(0))
+	case reflect.Slice:
+		if e := narrowType(t.Elem()); e != t.Elem() {
+			return reflect.SliceOf(e)
+		}
+	case reflect.Array:
+		if e := narrowType(t.Elem()); e != t.Elem() {
+			return reflect.ArrayOf(t.Len(), e)
+		}
+	case reflect.Ptr:
+		if e := narrowType(t.Elem()); e != t.Elem() {
+			return reflect.PointerTo(e)
+		}
+	case reflect.Map:
+		k, e := narrowType(t.Key()), narrowType(t.Elem())
+		if k != t.Key() || e != t.Elem() {
+			return reflect.MapOf(k, e)
+		}
+	case reflect.Struct:
+		changed := false
+		fs := make([]reflect.StructField, t.NumField())
+		for i := range fs {
+			fs[i] = t.Field(i)
+			fs[i].Offset = 0
+			fs[i].Index = nil
+			if e := narrowType(fs[i].Type); e != fs[i].Type {
+				fs[i].Type = e
+				changed = true
+			}
+		}
+		if changed {
+			return reflect.StructOf(fs)
+		}
+	}
+	return t
+}
+
 func main() {
 	n := flag.Int("n", 1500, "cases")
 	out := flag.String("out", "", "digest file")
@@ -182,6 +230,20 @@ func main() {
 				return result{false, reenc(p.Elem().Interface()), d.NumBytesRead()}
 			})
 			line += fmt.Sprintf("|pre:%v:%d:%s", dpre.err, dpre.n, truncs(dpre.data))
+			// decode into the NARROWED type (float64->float32, int/int64->int16, uint/uint64->uint8, same shape):
+			// overflow detection and rounding must not depend on the build variant
+			if nt := narrowType(t); nt != t {
+				dn := guarded(func() result {
+					p := reflect.New(nt)
+					d := codec.NewDecoderBytes(enc, h)
+					err := d.Decode(p.Interface())
+					if err != nil {
+						return result{true, nil, 0}
+					}
+					return result{false, reenc(p.Elem().Interface()), d.NumBytesRead()}
+				})
+				line += fmt.Sprintf("|narrow:%v:%d:%s", dn.err, dn.n, truncs(dn.data))
+			}
 			// schema-less decode
 			d2 := guarded(func() result {
 				var x interface{}
